@@ -10,7 +10,7 @@ use proptest::prelude::*;
 use pytest_language_server::FixtureDatabase;
 use serde::{Deserialize, Serialize};
 use serde_json::Value;
-use std::path::PathBuf;
+use std::path::{Path, PathBuf};
 
 pub const RULE: &str = "proptest-generated cases: a document F (test file or conftest.py) with on-disk text D and editor text B (equal or different), optionally a second edit B' and another file visited by the same scan worker; thread 0 is the scan worker (verif_analyze_file_fresh), thread 1 the editor (analyze_file); schedules are random or context-bounded over every DashMap shard-lock acquisition, in 2-shard and all-keys-collide placement. (1) quiescent state must equal the sequential order scan -> editor; (2) after one further analyze_file(F, X) the index must equal a fresh index that only ever saw the other file and X. Non-trivial = the two analyses of F overlap or the editor's precedes the scan's; distinct = distinct (texts, schedule) values.";
 pub const ASSUMPTIONS: &[&str] = &[
@@ -167,13 +167,107 @@ pub fn check_case(c: &Case, info: &mut CaseInfo) -> Outcome {
     }
 }
 
+// ---------------------------------------------------------------------------------------------
+// the scan's import-following phase must not re-read a document the editor already sent
+// ---------------------------------------------------------------------------------------------
+
+/// A helper module that the scan reaches only through imports (its name matches no collection
+/// pattern) is opened in the editor BEFORE the scan runs, with a buffer that may differ from disk.
+#[derive(Clone, Debug, Serialize, Deserialize)]
+pub struct ImpCase {
+    pub disk: MiniFile,
+    pub buffer: MiniFile,
+    /// how the importing conftests name the module: 0 `from helper_mod import *`, 1 `from .helper_mod import *`,
+    /// 2 `pytest_plugins = ["helper_mod"]`
+    pub form: u8,
+    /// further importing conftests in sub-directories
+    pub importers: u8,
+}
+
+pub fn imp_case() -> impl Strategy<Value = ImpCase> {
+    (mini_file(), mini_file(), 0u8..3, 0u8..6).prop_map(|(mut disk, mut buffer, form, importers)| {
+        disk.import_of = 9;
+        buffer.import_of = 9;
+        ImpCase { disk, buffer, form, importers }
+    })
+}
+
+static IMP_N: std::sync::atomic::AtomicUsize = std::sync::atomic::AtomicUsize::new(0);
+
+fn file_records(db: &FixtureDatabase, p: &Path) -> Value {
+    let mut defs: Vec<Value> = db.definitions.iter().flat_map(|e| e.value().clone()).filter(|d| d.file_path == p).map(|d| serde_json::json!([d.name, d.line, d.dependencies])).collect();
+    defs.sort_by_key(|v| v.to_string());
+    let mut us: Vec<Value> = db.usages.get(p).map(|u| u.iter().map(|u| serde_json::json!([u.name, u.line, u.start_char])).collect()).unwrap_or_default();
+    us.sort_by_key(|v| v.to_string());
+    let text = db.file_cache.get(p).map(|t| t.to_string());
+    serde_json::json!({"definitions": defs, "usages": us, "cached_text": text})
+}
+
+pub fn check_imp(c: &ImpCase, info: &mut CaseInfo) -> Outcome {
+    let n = IMP_N.fetch_add(1, std::sync::atomic::Ordering::SeqCst);
+    let base = format!("/dev/shm/verif-{}-c10i-{}", std::process::id(), n);
+    struct Rm(String);
+    impl Drop for Rm {
+        fn drop(&mut self) {
+            let _ = std::fs::remove_dir_all(&self.0);
+        }
+    }
+    let _rm = Rm(base.clone());
+    let ws = format!("{}/ws", base);
+    let import_line = match c.form % 3 {
+        0 => "from helper_mod import *\n",
+        1 => "from .helper_mod import *\n",
+        _ => "pytest_plugins = [\"helper_mod\"]\n",
+    };
+    let _ = std::fs::create_dir_all(&ws);
+    let _ = std::fs::write(format!("{}/conftest.py", ws), format!("import pytest\n{}", import_line));
+    let _ = std::fs::write(format!("{}/test_top.py", ws), "def test_top(shared_a, shared_b):\n    pass\n");
+    for i in 0..c.importers {
+        let d = format!("{}/pkg{}", ws, i);
+        let _ = std::fs::create_dir_all(&d);
+        // sub-directories name the module absolutely (resolved by walking up) or through pytest_plugins
+        let l = if c.form % 3 == 2 { "pytest_plugins = [\"helper_mod\"]\n" } else { "from helper_mod import *\n" };
+        let _ = std::fs::write(format!("{}/conftest.py", d), format!("import pytest\n{}", l));
+        let _ = std::fs::write(format!("{}/test_sub.py", d), "def test_sub(shared_a):\n    pass\n");
+    }
+    let helper = PathBuf::from(format!("{}/helper_mod.py", ws));
+    let (disk_text, buffer_text) = (render(&c.disk), render(&c.buffer));
+    let _ = std::fs::write(&helper, &disk_text);
+    if c.buffer.fixtures.is_empty() {
+        info.classes.push("buffer defines no fixture".into());
+    }
+    if disk_text != buffer_text {
+        info.nontrivial = true;
+    }
+    // editor first, then the whole scan
+    let db = FixtureDatabase::new();
+    db.analyze_file(helper.clone(), &buffer_text);
+    db.scan_workspace(Path::new(&ws));
+    let solo = FixtureDatabase::new();
+    solo.analyze_file(helper.clone(), &buffer_text);
+    let (got, want) = (file_records(&db, &helper), file_records(&solo, &helper));
+    info.checks += 1;
+    if got != want {
+        return Outcome::Fail(format!(
+            "a module reached only through imports was opened in the editor before the scan; after the scan the index holds for it {} instead of the editor's version {}\n--- on disk ---\n{}\n--- buffer ---\n{}",
+            got, want, disk_text, buffer_text
+        ));
+    }
+    Outcome::Ok
+}
+
 pub fn run(ctx: &Ctx) {
+    ctx.run_prop_shrink("scan-imports", ctx.tier.pick(500, 20_000), 8, 300, imp_case, |c, info| check_imp(c, info));
     ctx.run_prop_shrink("interleavings", ctx.tier.pick(2500, 60_000), 1, 600, case, |c, info| check_case(c, info));
 }
 
 pub fn judge(_ctx: &Ctx, sub: &str, case: &Value) -> Option<Outcome> {
     let mut info = CaseInfo::default();
     match sub {
+        "scan-imports" => {
+            let c: ImpCase = from_case(case)?;
+            Some(check_imp(&c, &mut info))
+        }
         "interleavings" => {
             let c: Case = from_case(case)?;
             Some(check_case(&c, &mut info))
